@@ -184,6 +184,37 @@ CLAIMS = {
         "single-phase selection carries that phase's point group. The pre-fix constructor/phases_in_data are kept as "
         "definitions with proved counter-examples. Tie: differential testing of random construction inputs and histories. "
         "Colours and the phases setter are not modelled."),
+ "C13": dict(category="proof", design_ref="DESIGN.md section 5 C13-C15",
+   technique="Lean 4: read(write m) = m for all well-formed records of the format model; key/marker/symmetry tables regenerated from the source and checked by decide +kernel; differential run on real HDF5 files (raw h5py tree and loaded map)",
+   text="Lean proves, for the format model of orix's HDF5 codec and all records satisfying an explicit decidable "
+        "well-formedness predicate (at least two points, ASCII strings, no reserved property names, at most ten atoms, "
+        "point-group names that resolve to themselves, a phase list consistent with the data), that reading what was written "
+        "returns the record (properties as the same name/array set) and that a second cycle does too; a generic theorem that "
+        "the dict<->HDF5 codec only sorts keys and applies two stated leaf rules. Every excluded point has a kernel-checked "
+        "counter-example or is run against the implementation (open findings). Tie: key, marker and symmetry tables "
+        "regenerated from the source on every run; differential run comparing the raw h5py tree, the loaded map and the second "
+        "cycle, and that saving does not modify the map. The Euler<->rotation step is C01's theorem; h5py's storage contract "
+        "is assumed; lattice re-alignment on load is measured."),
+ "C14": dict(category="proof", design_ref="DESIGN.md section 5 C13-C15",
+   technique="Lean 4: fixed-point (1e-5) model of the .ang writer/reader with tables regenerated from the source; readAng(writeAng m) = quantise m for all maps and writer options; differential run comparing every written row as text and the loaded map",
+   text="Lean proves, for a fixed-point model (units of 1e-5) of the .ang writer and reader instantiated with column, "
+        "footprint, alias and sentinel tables regenerated from the source on every run, that for all maps and all writer "
+        "keyword combinations satisfying an explicit predicate the reader returns exactly the specified map: grid, indexed "
+        "pattern, written Euler triplets, chosen columns, sentinels, phases renumbered 1..n with proper point groups, extras "
+        "under their names; renumbering bijectivity, sentinel exactness and the alias round trip for all 40 group names. The "
+        "excluded cases (multi-word names, column maps, unused phases, odd extra names) have proved counter-examples and are "
+        "open findings. numpy's decimal formatting/parsing is outside the theorems; the differential run compares every "
+        "written row as text and the loaded map."),
+ "C15": dict(category="proof", design_ref="DESIGN.md section 5 C13-C15",
+   technique="Lean 4: decode(encode m) = m for the vendor format descriptions (ang TSL/EMsoft/ASTAR, ctf variants, any column table with distinct names), unexpected-column rule on regenerated tables, Bruker re-ordering permutation lemma; rendered real files loaded with io.load",
+   text="Proof of the FORMAT MODELS, partial for the h5ebsd readers. Lean proves decode(encode m) = m for all well-formed maps "
+        "for .ang TSL (10/14 columns), EMsoft and ASTAR, for .ctf Oxford/Bruker, EMsoft, MTEX and ASTAR, and for any column "
+        "table with distinct names; the unexpected-column-count rule (warning + generic names) on the generated tables; for "
+        "Bruker, that any acquisition-order permutation is sorted back for every array. Full decode/encode for Bruker and "
+        "EMsoft h5ebsd is NOT proved: only table obligations, kernel-checked instances and the correspondence run support it. "
+        "Vendor column, Laue-class, degree-flag and re-order tables are regenerated from the source on every run; each format "
+        "description is rendered to real files with distinct values per column and loaded with io.load. Open findings have "
+        "proved counter-examples; the renderer, numpy and h5py are trusted; no real vendor files were available."),
 }
 REASONS = {}
 checks = []
